@@ -15,7 +15,8 @@ EXTENDS Integers, Sequences, FiniteSets, TLC
 CONSTANTS Total,      \* frames in the decoder's stream
           Packets,    \* possible packet sizes
           MaxEarly,   \* a seek may land this many frames early
-          MaxOut      \* frames to produce
+          MaxOut,     \* frames to produce
+          MaxSeeks    \* seek_to commands read by the decoder thread during the run
 
 VARIABLES slice,      \* <<lo, hi>> within the stream
           loop,       \* <<ls, le>> or <<-1, -1>> (no loop), relative to the slice
@@ -25,9 +26,10 @@ VARIABLES slice,      \* <<lo, hi>> within the stream
           clo, chunk,              \* decoded chunk: start index and its frames (true stream indices)
           out,                     \* pushed frames: <<transport index, stream index delivered>>
           ref,                     \* reference transport sequence
+          seeks,                   \* <<number of frames pushed before the seek, index asked for>> per seek_to command
           phase
 
-vars == <<slice, loop, tpos, playing, dreal, dbel, clo, chunk, out, ref, phase>>
+vars == <<slice, loop, tpos, playing, dreal, dbel, clo, chunk, out, ref, seeks, phase>>
 NumFrames == slice[2] - slice[1]
 
 Init ==
@@ -37,7 +39,7 @@ Init ==
   /\ tpos \in 0..(slice[2] - slice[1] - 1)                \* start position inside the slice
   /\ (loop[1] # -1 => tpos < loop[2])                      \* (start after the loop end is left open by the docs)
   /\ playing = TRUE
-  /\ dreal = 0 /\ dbel = 0 /\ clo = 0 /\ chunk = <<>> /\ out = <<>> /\ ref = <<>>
+  /\ dreal = 0 /\ dbel = 0 /\ clo = 0 /\ chunk = <<>> /\ out = <<>> /\ ref = <<>> /\ seeks = <<>>
   /\ phase = "seek0"
 
 \* DecodeScheduler::new: decoder.seek(start_position); note: NOT offset by the slice start (as the code does)
@@ -47,7 +49,7 @@ Seek0 ==
        LET land == IF tpos - early < 0 THEN 0 ELSE tpos - early IN
        dreal' = land /\ dbel' = land
   /\ phase' = "run"
-  /\ UNCHANGED <<slice, loop, tpos, playing, clo, chunk, out, ref>>
+  /\ UNCHANGED <<slice, loop, tpos, playing, clo, chunk, out, ref, seeks>>
 
 InChunk(i) == i >= clo /\ i < clo + Len(chunk)
 
@@ -60,7 +62,7 @@ BackSeek ==
        LET land == IF want - early < 0 THEN 0 ELSE want - early IN
        dreal' = land /\ dbel' = land
   /\ phase' = "decode"
-  /\ UNCHANGED <<slice, loop, tpos, playing, clo, chunk, out, ref>>
+  /\ UNCHANGED <<slice, loop, tpos, playing, clo, chunk, out, ref, seeks>>
 
 \* one iteration of the forward decode loop
 Decode ==
@@ -73,7 +75,7 @@ Decode ==
        /\ clo' = dbel
        /\ dbel' = dbel + n /\ dreal' = dreal + n
   /\ phase' = "decode"
-  /\ UNCHANGED <<slice, loop, tpos, playing, out, ref>>
+  /\ UNCHANGED <<slice, loop, tpos, playing, out, ref, seeks>>
 
 \* the wanted frame is in the chunk: push it and advance the transport
 Push ==
@@ -87,9 +89,27 @@ Push ==
      /\ tpos' = p2
      /\ playing' = (p2 < NumFrames)
   /\ phase' = "run"
-  /\ UNCHANGED <<slice, loop, dreal, dbel, clo, chunk>>
+  /\ UNCHANGED <<slice, loop, dreal, dbel, clo, chunk, seeks>>
 
-Next == Seek0 \/ BackSeek \/ Decode \/ Push
+\* a seek_to command read at the top of run(): Transport::seek_to (wrapped into the loop region in the direction of
+\* the jump), then decoder.seek(index) - with the transport index, not offset by the slice start, as the code does;
+\* frame_at_index sorts that out afterwards (backward seek or forward decode)
+RECURSIVE WrapDown(_, _, _), WrapUp(_, _, _)
+WrapDown(x, le, len) == IF x >= le THEN WrapDown(x - len, le, len) ELSE x
+WrapUp(x, ls, len) == IF x < ls THEN WrapUp(x + len, ls, len) ELSE x
+SeekTarget(x) == IF loop[1] = -1 THEN x
+                 ELSE IF x > tpos THEN WrapDown(x, loop[2], loop[2] - loop[1]) ELSE WrapUp(x, loop[1], loop[2] - loop[1])
+SeekTo(x) ==
+  /\ phase = "run" /\ playing /\ Len(out) < MaxOut /\ Len(seeks) < MaxSeeks
+  /\ LET p == SeekTarget(x) IN
+     /\ tpos' = p /\ playing' = (p < NumFrames)
+     /\ seeks' = Append(seeks, <<Len(out), p>>)
+     /\ \E early \in 0..MaxEarly :
+          LET land == IF p - early < 0 THEN 0 ELSE p - early IN
+          dreal' = land /\ dbel' = land
+  /\ UNCHANGED <<slice, loop, clo, chunk, out, ref, phase>>
+
+Next == Seek0 \/ BackSeek \/ Decode \/ Push \/ (\E x \in 0..(NumFrames - 1) : SeekTo(x))
 Spec == Init /\ [][Next]_vars
 
 \* ---- checked formulas
@@ -99,10 +119,17 @@ Faithful == \A j \in 1..Len(out) : out[j][2] = slice[1] + out[j][1]
 BeliefExact == dbel = dreal
 \* the transport sequence is the reference: consecutive, wrapping from loop end to loop start, inside the slice
 RefStep(a, b) == IF loop[1] # -1 /\ a + 1 >= loop[2] THEN b = a + 1 - (loop[2] - loop[1]) ELSE b = a + 1
+SeekAfter(j) == \E k \in 1..Len(seeks) : seeks[k][1] = j
 TransportIsReference == /\ \A j \in 1..Len(out) : out[j][1] >= 0 /\ out[j][1] < NumFrames
-                        /\ \A j \in 1..(Len(out) - 1) : RefStep(out[j][1], out[j + 1][1])
+                        /\ \A j \in 1..(Len(out) - 1) : SeekAfter(j) \/ RefStep(out[j][1], out[j + 1][1])
+\* the first frame pushed after a seek is the frame asked for by the last seek read before it
+SeekLands == \A j \in 0..(Len(out) - 1) : SeekAfter(j) =>
+               LET ks == {k \in 1..Len(seeks) : seeks[k][1] = j}
+                   last == CHOOSE k \in ks : \A h \in ks : h <= k IN
+               out[j + 1][1] = seeks[last][2]
 \* the forward decode loop cannot run for ever: the wanted frame is never behind an un-seekable position
 Progress == (phase = "decode" /\ playing /\ ~InChunk(slice[1] + tpos)) => (slice[1] + tpos >= dbel /\ dreal < Total)
 W_Wrap == ~(\E j \in 1..(Len(out) - 1) : out[j + 1][1] < out[j][1])
+W_Seek == seeks = <<>>
 W_BackSeek == phase # "decode" \/ dbel >= clo
 =============================================================================
